@@ -1,27 +1,29 @@
 (* C06 -- marshalled output is plain JSON-compatible data, freshly built.  Theorems only.
 
-   mar_fixed = Core.mar with the NoneType routine repaired (proposed_fixes/C06-none-member.diff);
-   mar       = Core.mar as it stands (NoOpMarshaller for NoneType): C06_current_is_marG shows that the two differ
-               in the routine of the NoneType member and in nothing else.
-   The theorems quantify over every runtime rt, class environment E, annotation T, value v and every fuel. *)
+   All theorems are about Core.mar itself (NoneTypeMarshaller arm, /repo ae6ba7e).  CoreC06.mar_fixed is the same
+   function in the shape marG none_m used by the proofs (C06_mar_is_mar_fixed, by conversion).
+   The theorems quantify over every runtime rt, class environment E, annotation T, value v and every fuel.
+   marG none_echo is the PINNED routine (NoOpMarshaller for NoneType); the C06_pinned_* witnesses record the
+   repaired defects. *)
 From Coq Require Import List Arith Bool PeanoNat.
 Import ListNotations.
 Require Import TL.Model.Core TL.Model.CoreC06 TL.Model.CoreC06Toy TL.Proofs.CoreC06.
 
-(* ---- the statement at full strength, about Core.mar as it stands ---- *)
-Definition C06_full : Prop :=
+(* ---- the statement at full strength ---- *)
+Theorem C06_full :
   forall rt E prim_atom robust_leaf wire_leaf R F leaf_valid lit_leaf lit_member,
     MarshalLaws rt prim_atom robust_leaf wire_leaf leaf_valid lit_leaf lit_member ->
     forall T, fully_annotated E robust_leaf wire_leaf true R F T ->
     forall m n v w, valid rt E leaf_valid n T v = true -> mar rt E m T v = Ok w ->
                     is_wire prim_atom w = true /\ built rt w.
+Proof. exact full_holds. Qed.
 
-(* ---- repaired routine: every valid value of a fully annotated type marshals to wire data ---- *)
+(* ---- every valid value of a fully annotated type marshals to wire data ---- *)
 Theorem C06_wire :
   forall rt E prim_atom robust_leaf wire_leaf R F leaf_valid lit_leaf lit_member,
     MarshalLaws rt prim_atom robust_leaf wire_leaf leaf_valid lit_leaf lit_member ->
     forall T, fully_annotated E robust_leaf wire_leaf true R F T ->
-    forall m n v w, valid rt E leaf_valid n T v = true -> mar_fixed rt E m T v = Ok w ->
+    forall m n v w, valid rt E leaf_valid n T v = true -> mar rt E m T v = Ok w ->
                     is_wire prim_atom w = true.
 Proof. exact fixed_wire_valid. Qed.
 
@@ -29,48 +31,48 @@ Example C06_wire_nonvacuous :
   MarshalLaws (toy_rt false) toy_prim toy_robust toy_robust toy_valid toy_lit toy_lit_member /\
   fully_annotated toy_E toy_robust toy_robust true toy_R toy_R toy_T /\
   valid (toy_rt false) toy_E toy_valid 6 toy_T toy_v = true /\
-  mar_fixed (toy_rt false) toy_E 6 toy_T toy_v = Ok toy_w /\ is_wire toy_prim toy_w = true.
+  mar (toy_rt false) toy_E 6 toy_T toy_v = Ok toy_w /\ is_wire toy_prim toy_w = true.
 Proof.
   split; [exact toy_laws|]. split; [split; [exact toy_env_robust | split; [exact toy_env_fa | reflexivity]]|].
   split; [vm_compute; reflexivity|]. split; vm_compute; reflexivity.
 Qed.
 
-(* ---- repaired routine: whatever the input, a robust annotation never lets non-wire data out ---- *)
+(* ---- whatever the input, a robust annotation never lets non-wire data out ---- *)
 Theorem C06_wire_any_input :
   forall rt E prim_atom robust_leaf wire_leaf R leaf_valid lit_leaf lit_member,
     MarshalLaws rt prim_atom robust_leaf wire_leaf leaf_valid lit_leaf lit_member ->
     env_robust E robust_leaf true R ->
-    forall m T x w, robust_ty robust_leaf true R T = true -> mar_fixed rt E m T x = Ok w ->
+    forall m T x w, robust_ty robust_leaf true R T = true -> mar rt E m T x = Ok w ->
                     is_wire prim_atom w = true.
 Proof. exact fixed_wire_any. Qed.
 
 Example C06_wire_any_input_nonvacuous :
   robust_ty toy_robust true toy_R none_first_T = true /\
-  mar_fixed (toy_rt false) empty_E 3 none_first_T (PAtom 3) = Ok (PAtom 4) /\
-  mar_fixed (toy_rt false) empty_E 3 none_first_T (PAtom 0) = Ok (PAtom 0).
+  mar (toy_rt false) empty_E 3 none_first_T (PAtom 3) = Ok (PAtom 4) /\
+  mar (toy_rt false) empty_E 3 none_first_T (PAtom 0) = Ok (PAtom 0).
 Proof. repeat split; vm_compute; reflexivity. Qed.
 
 (* ---- freshness: the result is a tree of list / dict nodes built by the composite routines, over results of
         leaf routines, field names and None.  No annotation, input or law is excluded. ---- *)
 Theorem C06_fresh :
-  forall rt E m T x w, mar_fixed rt E m T x = Ok w -> built rt w.
+  forall rt E m T x w, mar rt E m T x = Ok w -> built rt w.
 Proof. exact fixed_built. Qed.
 
 Theorem C06_fresh_shape :
   forall rt E prim_atom robust_leaf wire_leaf R F leaf_valid lit_leaf lit_member,
     MarshalLaws rt prim_atom robust_leaf wire_leaf leaf_valid lit_leaf lit_member ->
     forall T, fully_annotated E robust_leaf wire_leaf true R F T ->
-    forall m n v w, valid rt E leaf_valid n T v = true -> mar_fixed rt E m T v = Ok w ->
+    forall m n v w, valid rt E leaf_valid n T v = true -> mar rt E m T v = Ok w ->
                     only_list_dict w = true.
 Proof. exact fixed_shape. Qed.
 
 Example C06_fresh_nonvacuous :
-  mar_fixed (toy_rt false) toy_E 6 toy_T toy_v = Ok toy_w /\ only_list_dict toy_v = false /\ only_list_dict toy_w = true.
+  mar (toy_rt false) toy_E 6 toy_T toy_v = Ok toy_w /\ only_list_dict toy_v = false /\ only_list_dict toy_w = true.
 Proof. repeat split; vm_compute; reflexivity. Qed.
 
 (* ---- a function of (rt, E, T, v); repeated calls, call history and caches are the business of the tie ---- *)
 Theorem C06_deterministic :
-  forall rt E m T x w1 w2, mar_fixed rt E m T x = Ok w1 -> mar_fixed rt E m T x = Ok w2 -> w1 = w2.
+  forall rt E m T x w1 w2, mar rt E m T x = Ok w1 -> mar rt E m T x = Ok w2 -> w1 = w2.
 Proof. exact fixed_deterministic. Qed.
 
 (* ---- Literal: a value that is not a member is rejected with ValueError (law_literal, sampled on every run) ---- *)
@@ -78,74 +80,51 @@ Theorem C06_literal_rejects :
   forall rt E prim_atom robust_leaf wire_leaf leaf_valid lit_leaf lit_member,
     MarshalLaws rt prim_atom robust_leaf wire_leaf leaf_valid lit_leaf lit_member ->
     forall s x m, lit_leaf s = true -> lit_member s x = false ->
-      mar_fixed rt E (S m) (TLeaf s) x = Raise EValue /\ mar rt E (S m) (TLeaf s) x = Raise EValue.
-Proof. intros rt E p rl wl lv ll lm. exact (literal_rejects rt E p rl wl lv ll lm). Qed.
+      mar rt E (S m) (TLeaf s) x = Raise EValue.
+Proof. intros rt E p rl wl lv ll lm L s x m Hs Hx. exact (proj2 (literal_rejects rt E p rl wl lv ll lm L s x m Hs Hx)). Qed.
 
 Example C06_literal_rejects_nonvacuous :
   toy_lit 2 = true /\ toy_lit_member 2 (PAtom 6) = false /\
-  mar_fixed (toy_rt false) empty_E 1 (TLeaf 2) (PAtom 6) = Raise EValue /\
-  mar_fixed (toy_rt false) empty_E 1 (TLeaf 2) (PAtom 5) = Ok (PAtom 5).
+  mar (toy_rt false) empty_E 1 (TLeaf 2) (PAtom 6) = Raise EValue /\
+  mar (toy_rt false) empty_E 1 (TLeaf 2) (PAtom 5) = Ok (PAtom 5).
 Proof. repeat split; vm_compute; reflexivity. Qed.
 
-(* ---- Core.mar as it stands ---- *)
-(* it is marG with the echoing NoneType routine: mar_fixed differs from it in that routine only *)
-Theorem C06_current_is_marG :
-  forall rt E m T x, mar rt E m T x = marG rt E none_echo m T x.
+(* ---- Core.mar is the function the proofs speak about ---- *)
+Theorem C06_mar_is_mar_fixed :
+  forall rt E m T x, mar rt E m T x = mar_fixed rt E m T x.
 Proof. exact mar_is_marG. Qed.
 
-(* guard none_ok = false: no NoneType member at a robust position (a union member, or a definition in R) *)
-Theorem C06_wire_current :
-  forall rt E prim_atom robust_leaf wire_leaf R F leaf_valid lit_leaf lit_member,
-    MarshalLaws rt prim_atom robust_leaf wire_leaf leaf_valid lit_leaf lit_member ->
-    forall T, fully_annotated E robust_leaf wire_leaf false R F T ->
-    forall m n v w, valid rt E leaf_valid n T v = true -> mar rt E m T v = Ok w ->
-                    is_wire prim_atom w = true.
-Proof. exact current_wire_valid. Qed.
+(* ---- the repaired defects, as witnesses about the PINNED routine marG none_echo ---- *)
+(* marshal(Decimal('1.5'), t=Union[None, Decimal]) returned the Decimal itself *)
+Theorem C06_pinned_none_first_refuted :
+  valid (toy_rt false) empty_E toy_valid 3 none_first_T (PAtom 3) = true /\
+  marG (toy_rt false) empty_E none_echo 3 none_first_T (PAtom 3) = Ok (PAtom 3) /\ is_wire toy_prim (PAtom 3) = false /\
+  mar (toy_rt false) empty_E 3 none_first_T (PAtom 3) = Ok (PAtom 4) /\ is_wire toy_prim (PAtom 4) = true.
+Proof. repeat split; vm_compute; reflexivity. Qed.
 
-Example C06_wire_current_nonvacuous :
-  fully_annotated empty_E toy_robust toy_robust false toy_R toy_R (TSeq KTuple (TUnion [TLeaf 0; TLeaf 1])) /\
-  valid (toy_rt false) empty_E toy_valid 4 (TSeq KTuple (TUnion [TLeaf 0; TLeaf 1])) (PSeq KTuple [PAtom 1; PAtom 3]) = true /\
-  mar (toy_rt false) empty_E 4 (TSeq KTuple (TUnion [TLeaf 0; TLeaf 1])) (PSeq KTuple [PAtom 1; PAtom 3])
-    = Ok (PSeq KList [PAtom 1; PAtom 5]).
-Proof.
-  split; [split; [apply empty_env_robust | split; [apply empty_env_fa | reflexivity]]|].
-  split; vm_compute; reflexivity.
-Qed.
-
-(* the excluded region: marshal(Decimal('1.5'), t=Union[None, Decimal]) returns the Decimal itself *)
-Theorem C06_refuted_none_first : ~ C06_full.
-Proof.
-  intros H.
-  destruct (H (toy_rt false) empty_E toy_prim toy_robust toy_robust toy_R toy_R toy_valid toy_lit toy_lit_member
-              toy_laws none_first_T
-              (conj (empty_env_robust true toy_R) (conj (empty_env_fa true toy_R toy_R) eq_refl))
-              3 3 (PAtom 3) (PAtom 3) eq_refl eq_refl) as [Hw _].
-  vm_compute in Hw. discriminate Hw.
-Qed.
-
-(* ... and marshal(l, t=Union[None, list[int]]) returns the input list l itself, not a rebuilt one *)
-Theorem C06_refuted_none_first_shares :
+(* ... and marshal(l, t=Union[None, list[int]]) returned the input list l itself, not a rebuilt one *)
+Theorem C06_pinned_none_first_shares :
   exists T x, valid (toy_rt false) empty_E toy_valid 4 T x = true /\
-              mar (toy_rt false) empty_E 4 T x = Ok x /\ x = PSeq KList [PAtom 1; PAtom 5] /\
-              mar_fixed (toy_rt false) empty_E 4 T x = Ok (PSeq KList [PAtom 1; PAtom 5]).
+              marG (toy_rt false) empty_E none_echo 4 T x = Ok x /\ x = PSeq KList [PAtom 1; PAtom 5] /\
+              mar (toy_rt false) empty_E 4 T x = Ok (PSeq KList [PAtom 1; PAtom 5]).
 Proof. exists none_first_seq_T, (PSeq KList [PAtom 1; PAtom 5]). repeat split; vm_compute; reflexivity. Qed.
 
 (* why law_robust is asked of Literal leaves: with membership by == (the pinned LiteralMarshaller),
    marshal(Decimal('1'), t=Union[Literal[1], Decimal]) emits the Decimal *)
 Theorem C06_refuted_literal_eq :
   exists T v w, valid (toy_rt true) empty_E toy_valid 3 T v = true /\
-                mar_fixed (toy_rt true) empty_E 3 T v = Ok w /\ is_wire toy_prim w = false /\
+                mar (toy_rt true) empty_E 3 T v = Ok w /\ is_wire toy_prim w = false /\
                 leaf_m (toy_rt true) 2 v = Ok w /\ toy_lit_member 2 v = false.
 Proof. exists lit_eq_T, (PAtom 6), (PAtom 6). repeat split; vm_compute; reflexivity. Qed.
 
+Print Assumptions C06_full.
 Print Assumptions C06_wire.
 Print Assumptions C06_wire_any_input.
 Print Assumptions C06_fresh.
 Print Assumptions C06_fresh_shape.
 Print Assumptions C06_deterministic.
 Print Assumptions C06_literal_rejects.
-Print Assumptions C06_current_is_marG.
-Print Assumptions C06_wire_current.
-Print Assumptions C06_refuted_none_first.
-Print Assumptions C06_refuted_none_first_shares.
+Print Assumptions C06_mar_is_mar_fixed.
+Print Assumptions C06_pinned_none_first_refuted.
+Print Assumptions C06_pinned_none_first_shares.
 Print Assumptions C06_refuted_literal_eq.
